@@ -58,6 +58,19 @@ def scalars_case(ctx, idx, rng):
         _close(ctx, 'norm', ptn.norm(psi), norm_psi, np_, detail)
         _close(ctx, 'operator_average', ptn.operator_average(psi, H), np.vdot(vp, mH @ vp), nH * np_ ** 2, detail)
         _close(ctx, 'operator_inner_product', ptn.operator_inner_product(chi, H, psi), np.vdot(vc, mH @ vp), nH * np_ * nc, detail)
+    if idx % 2 == 0:
+        # history: the same objects edited in place, all scalars asked again
+        i = int(rng.integers(0, L))
+        for T, c in ((psi, 2.0), (H, -3.0), (chi, 0.5)):
+            T.A[i] = T.A[i] * 1.0 if np.issubdtype(T.A[i].dtype, np.integer) else T.A[i]
+            T.A[i] *= c
+        vp2, vc2, mH2 = refs.dense_state(psi.A), refs.dense_state(chi.A), refs.dense_operator(H.A)
+        np2, nc2, nH2 = ts(psi), ts(chi), ts(H)
+        _close(ctx, 'vdot[after-inplace-edit]', ptn.vdot(chi, psi), np.vdot(vc2, vp2), np2 * nc2, detail)
+        _close(ctx, 'norm[after-inplace-edit]', ptn.norm(psi), np.linalg.norm(vp2), np2, detail)
+        _close(ctx, 'operator_average[after-inplace-edit]', ptn.operator_average(psi, H), np.vdot(vp2, mH2 @ vp2), nH2 * np2 ** 2, detail)
+        _close(ctx, 'operator_inner_product[after-inplace-edit]', ptn.operator_inner_product(chi, H, psi), np.vdot(vc2, mH2 @ vp2), nH2 * np2 * nc2, detail)
+        mH, nH = mH2, nH2
     if d ** (2 * L) <= 4096:
         rho = gen.rand_mpo(rng, qd, L, Dmax=3, kind='complex')
         mr = refs.dense_operator(rho.A)
